@@ -124,17 +124,19 @@ type Views struct {
 }
 
 type Runner struct {
-	Sch     *Schema
-	M       *am.Machine
-	mx      sync.Mutex
-	events  []Event
-	rules   []rule
-	counts  map[string]int
-	nbind   int
-	bound   int
-	Timeout time.Duration
-	cancel  context.CancelFunc
-	tracerN int
+	Sch    *Schema
+	M      *am.Machine
+	mx     sync.Mutex
+	events []Event
+	rules  []rule
+	counts map[string]int
+	nbind  int
+	bound  int
+	// physical bindings beyond "b<k>" that belong to logical binding k
+	extraBind map[int][]string
+	Timeout   time.Duration
+	cancel    context.CancelFunc
+	tracerN   int
 	// subscriptions
 	chans   []<-chan struct{} // index = id (0 unused)
 	kinds   []string          // "ch" | "ctx" | "sctx"
@@ -242,7 +244,7 @@ func NewRunner(sch *Schema, timeout time.Duration) (*Runner, error) {
 
 // NewRunnerId: NewRunner with a chosen machine id (several machines, one debugger).
 func NewRunnerId(sch *Schema, timeout time.Duration, id string) (*Runner, error) {
-	r := &Runner{Sch: sch, counts: map[string]int{}, Timeout: timeout,
+	r := &Runner{Sch: sch, counts: map[string]int{}, extraBind: map[int][]string{}, Timeout: timeout,
 		ctxs: map[int]context.Context{}, cancels: map[int]context.CancelFunc{}, uctx: map[int]context.Context{}}
 	schema := am.Schema{}
 	for i, d := range sch.Defs {
@@ -374,6 +376,11 @@ func (r *Runner) runHandler(bind int, name string, e *am.Event) bool {
 	}
 	if strings.HasPrefix(act, "detach:") {
 		r.M.HandlersDetach("b" + act[7:])
+		if d, err := strconv.Atoi(act[7:]); err == nil {
+			for _, id := range r.extraBind[d] {
+				r.M.HandlersDetach(id)
+			}
+		}
 		return true
 	}
 	switch act {
@@ -396,12 +403,33 @@ func (r *Runner) bindAll() error {
 		neg := map[string]am.HandlerNegotiation{}
 		fin := map[string]am.HandlerFinal{}
 		seen := map[string]bool{}
+		// states whose State / End handlers go through a struct with returning methods: both of
+		// them must have a rule (a struct brings both methods), odd bindings only
+		viaStruct := map[int]bool{}
+		if b%2 == 1 {
+			has := map[string]bool{}
+			for _, ru := range r.rules {
+				if ru.bind == b {
+					has[ru.name] = true
+				}
+			}
+			for i, nm := range r.Sch.Names {
+				if has["state:"+strconv.Itoa(i)] && has["end:"+strconv.Itoa(i)] && structFor(nm, finBase{}) != nil {
+					viaStruct[i] = true
+				}
+			}
+		}
 		for _, ru := range r.rules {
 			if ru.bind != b || seen[ru.name] {
 				continue
 			}
 			seen[ru.name] = true
 			name, bb := ru.name, b
+			if p := strings.Split(name, ":"); len(p) == 2 && (p[0] == "state" || p[0] == "end") {
+				if i, err := strconv.Atoi(p[1]); err == nil && viaStruct[i] {
+					continue
+				}
+			}
 			gname := HNameToGo(name, r.Sch.Names)
 			if IsFinalHName(name) {
 				fin[gname] = func(e *am.Event) { r.runHandler(bb, name, e) }
@@ -411,6 +439,17 @@ func (r *Runner) bindAll() error {
 		}
 		if _, err := r.M.HandlersBindMaps(neg, fin, am.BindOpts{Id: "b" + strconv.Itoa(b)}); err != nil {
 			return err
+		}
+		for i := range r.Sch.Names {
+			if !viaStruct[i] {
+				continue
+			}
+			hs := structFor(r.Sch.Names[i], finBase{r: r, bind: b, idx: i})
+			id := "b" + strconv.Itoa(b) + "-" + r.Sch.Names[i]
+			if _, err := r.M.HandlersBind(hs, am.BindOpts{Id: id}); err != nil {
+				return err
+			}
+			r.extraBind[b] = append(r.extraBind[b], id)
 		}
 		r.bound = b + 1
 	}
